@@ -714,9 +714,15 @@ CLOSE_FLOOR = {
                            'close:open:fileobj:rst': 60, 'close:open:fileobj:rstl': 60, 'close:open:mmap': 55,
                            'close:query-after-close:filename': 6600, 'close:query-after-close:fileobj': 17000,
                            'close:query-inside-with': 1200}},
-    'thorough': {'monitors': {'M.close': 0, 'M.close.query': 0},
-                 'per-form-part-compression': {'fileobj': 0, 'filename': 0},
-                 'counters': {}},
+    'thorough': {'monitors': {'M.close': 54000, 'M.close.query': 1400000},
+                 'per-form-part-compression': {'fileobj': 7700, 'filename': 2900},
+                 'counters': {'close:pkg': 31000, 'close:pkg:filename': 8700, 'close:pkg:fileobj': 22000,
+                              'close:how:deb.close': 13000, 'close:how:control.close': 6800, 'close:how:data.close': 6700,
+                              'close:how:parts': 6800, 'close:how:twice': 6700, 'close:how:with': 13000,
+                              'close:open:filename': 14000, 'close:open:fileobj': 23000, 'close:open:fileobj:plain': 3800,
+                              'close:open:fileobj:rst': 3900, 'close:open:fileobj:rstl': 3900, 'close:open:mmap': 3800,
+                              'close:query-after-close:filename': 380000, 'close:query-after-close:fileobj': 1000000,
+                              'close:query-inside-with': 69000}},
 }
 MULTI_FLOOR = {
     'quick': {'monitors': {'M.multi': 100, 'M.multi.query': 14000},
@@ -731,7 +737,19 @@ MULTI_FLOOR = {
                            'multi:reader-closed-while-others-are-still-asked': 110,
                            'multi:some-part-name-shared-between-readers': 76,
                            'multi:some-part-name-differs-between-readers': 38}},
-    'thorough': {'monitors': {'M.multi': 0, 'M.multi.query': 0}, 'counters': {}},
+    'thorough': {'monitors': {'M.multi': 4400, 'M.multi.query': 660000},
+                 'counters': {'multi:different-packages': 3800, 'multi:same-package': 660, 'multi:readers=2': 3100,
+                              'multi:readers=3': 1300, 'multi:first-reader-asked-before-second-constructed': 2500,
+                              'multi:first-reader-asked-only-after-second-constructed': 1900,
+                              'multi:step-of-first-reader-before-second-constructed': 26000,
+                              'multi:open:all-filename': 1400, 'multi:open:all-fileobj': 2200, 'multi:open:mixed': 750,
+                              'multi:query:filename': 260000, 'multi:query:fileobj': 390000, 'multi:query-after-close': 180000,
+                              'multi:query-by-reader-1': 260000, 'multi:query-by-reader-2': 290000,
+                              'multi:query-by-reader-3': 96000, 'multi:query-with-two-others-alive': 230000,
+                              'multi:switch-between-readers': 400000,
+                              'multi:reader-closed-while-others-are-still-asked': 5100,
+                              'multi:some-part-name-shared-between-readers': 3600,
+                              'multi:some-part-name-differs-between-readers': 2100}},
 }
 
 
